@@ -253,6 +253,10 @@ func c09Explore(c *Ctx, stream string) {
 			}
 			c09Web(c, "web-mean", p, nil, []c09Req{{paths[k%len(paths)], q}})
 		}
+		// the witness of known finding F38 is always replayed: a divisor so small that its reciprocal
+		// (report.Options.Ratio) is +Inf makes the flame graph's Scale +Inf, json.Marshal refuses it and
+		// the handler answers 500 instead of 400
+		c09Web(c, "finding-F38", c09Shapes()[0].p, []string{"-divide_by=4.9e-324"}, []c09Req{{"/flamegraph", ""}})
 		// the witness of known finding F25 is always replayed, LAST (the spinning goroutine dies with
 		// this process): two lines of one function 2^63 apart, listed through /source
 		{
